@@ -12,7 +12,7 @@ CONFIG = {
                    "2 MiB + 1, 3 MiB + 17), contents (random, zeros, repeated blocks), format subsets (1..6, repeated -h; xxh32 "
                    "at library level) and entry points (create, create -sf, verify, the hash command, verify -dh -co, and the "
                    "library calls hash_file, hash_data, multiple_format_hash_file, multiple_format_hash_data, streaming hashers with "
-                   "intermediate digests, "
+                   "intermediate digests, concurrent calls from several simulated threads with seeded line-level interleaving, "
                    "bytes_for_hash_string run as a client inside the simulated process), with the simulator deciding the size "
                    "of every read() (full, halves, 1..17-byte reads, ragged) so that both chunk loops iterate from once to "
                    "thousands of times and chunk boundaries fall at arbitrary offsets. Every digest string observed is "
@@ -121,7 +121,14 @@ def generate(rng, tier):
         # streaming use of one hasher object: data fed in pieces, the digest of what has been fed so far is asked for
         # before the first piece, between pieces and at the end
         lib.append(["stream", rng.choice(files), [rng.choice(observe.ALL_FORMATS), rng.getrandbits(30)]])
-    return {"world": env, "ops": ops, "lib": lib, "codec_seed": rng.getrandbits(40)}
+    threads = None
+    if len(files) >= 2 and rng.random() < 0.25:
+        # the library called from several threads of one process at the same time, each on another file
+        picks = rng.sample(files, min(len(files), rng.randint(2, 3)))
+        threads = {"calls": [["hash_file", f, rng.choice(observe.ALL_FORMATS)] if rng.random() < 0.5 else
+                             ["multi_file", f, sorted(rng.sample(observe.FORMATS, rng.randint(1, 3)))] for f in picks],
+                   "sched_seed": rng.getrandbits(32), "preempt": rng.choice([100, 300, 600])}
+    return {"world": env, "ops": ops, "lib": lib, "codec_seed": rng.getrandbits(40), "threads": threads}
 
 
 def _lib_calls(cs, calls, codec_values):
@@ -307,6 +314,29 @@ def execute(sc, ctx):
             ctx.violate({"kind": "wrong-raw-bytes", "fmt": "c4", "entry": "lib.bytes_for_hash_string", "cause": "leading-zeros"},
                         f"c4 decode of {observe.c4_encode(raw)} -> {got!r}")
             return
+    th = sc.get("threads")
+    if th:
+        from .. import simthread
+
+        tcalls = [[k, w.abspath(f), a] for k, f, a in th["calls"] if os.path.isfile(w.abspath(f))]
+        if len(tcalls) >= 2:
+            r = w.run_child(("pyfunc", simthread.run_lib_threads_job, (tcalls, th["sched_seed"], th["preempt"])), timeout=40)
+            if r.outcome[0] != "exit" or not isinstance(r.value, dict) or r.value["hang"]:
+                ctx.violate({"kind": "abort", "entry": "library-threads", "cause": r.extra.get("abort_type", r.brief())},
+                            f"threaded library calls -> {r.brief()} {r.extra.get('abort_tb', '')[-500:]}")
+                return
+            ctx.fault("thread_switches", r.value["switches"])
+            if r.value["switches"] >= 2:
+                ctx.probe("library_calls_interleaved_between_threads")
+            for (kind, path, arg), got in zip(tcalls, r.value["results"]):
+                fmts = [arg] if kind == "hash_file" else list(arg)
+                if isinstance(got, str) and got.startswith("exception"):
+                    ctx.violate({"kind": "abort", "entry": "library-threads", "cause": got[:60]}, f"{kind} {arg}: {got}")
+                    return
+                for fmt in fmts:
+                    val = got if kind == "hash_file" else (got or {}).get(fmt)
+                    if not compare("lib.threads." + kind, path, fmt, val, len(fmts), True):
+                        return
     ctx.absorb_world(w)
     if any(v["t"] == "l" for v in sc["world"]["tree"].values()):
         ctx.probe("symlinked_file_hashed")
@@ -319,12 +349,16 @@ def shrink_candidates(sc):
         yield dict(sc, ops=ops)
     for lib in ddmin_list(sc["lib"]):
         yield dict(sc, lib=lib)
+    if sc.get("threads"):
+        yield dict(sc, threads=None)
     protected = set()
     for o in sc["ops"]:
         for a in o.get("argv", []):
             if isinstance(a, str) and a.startswith("@R/"):
                 protected.add(a[3:])
     for k, f, a in sc["lib"]:
+        protected.add(f)
+    for k, f, a in (sc.get("threads") or {}).get("calls", []):
         protected.add(f)
     for tree in gen.shrink_tree_candidates(sc["world"]["tree"], protected):
         yield dict(sc, world=dict(sc["world"], tree=tree))
